@@ -130,6 +130,9 @@ class LabelProbabilityInjector(Injector):
         """
         # handle data type
         ret, (target_col,) = self._preprocess(data, target_col)
+        # the probabilities of unspecified classes are filled in below; work
+        # on a copy so the caller's dict is left as it was given
+        class_probabilities = dict(class_probabilities)
 
         # determine all unique classes and classes not specified in args
         all_classes = np.unique(ret[:, target_col])
